@@ -531,7 +531,15 @@ type Lemma struct {
 	Line int
 }
 
+type AbstractFunc struct {
+	Name   string
+	Params []SParam
+	Ret    *STypeExpr
+	Defs   map[string]*SpecFunc // by static type of the first argument, e.g. "*add"
+}
+
 type ContractFile struct {
+	Abstract    map[string]*AbstractFunc
 	Path        string
 	Mode        string
 	Funcs       map[string]*FuncContract
@@ -542,7 +550,7 @@ type ContractFile struct {
 }
 
 func ParseContractFile(src, path string) (cf *ContractFile, err error) {
-	cf = &ContractFile{Path: path, Mode: "int", Funcs: map[string]*FuncContract{}, SpecFuncs: map[string]*SpecFunc{}}
+	cf = &ContractFile{Path: path, Mode: "int", Funcs: map[string]*FuncContract{}, SpecFuncs: map[string]*SpecFunc{}, Abstract: map[string]*AbstractFunc{}}
 	// gather logical lines
 	type ll struct {
 		s    string
@@ -617,6 +625,22 @@ func ParseContractFile(src, path string) (cf *ContractFile, err error) {
 			sf := parseSpecFunc(r2, path, l.line)
 			sf.Opaque = kw == "opaque"
 			cf.SpecFuncs[sf.Name] = sf
+			cur = nil
+		case "abstract":
+			// abstract func name(self I, r T) R
+			_, r2 := splitKw(rest)
+			sf := parseSpecFunc("func "+r2+" = true", path, l.line)
+			cf.Abstract[sf.Name] = &AbstractFunc{Name: sf.Name, Params: sf.Params, Ret: sf.Ret, Defs: map[string]*SpecFunc{}}
+			cur = nil
+		case "define":
+			// define name(self *T, r R) = expr   (definition of an abstract function for one receiver type)
+			sf := parseSpecFunc("func "+rest, path, l.line)
+			af := cf.Abstract[sf.Name]
+			if af == nil {
+				panic(fmt.Errorf("%s:%d: define of undeclared abstract func %s", path, l.line, sf.Name))
+			}
+			sf.Ret = af.Ret
+			af.Defs[sf.Params[0].Type.String()] = sf
 			cur = nil
 		case "lemma":
 			// lemma name: forall ... or expr
